@@ -89,6 +89,8 @@ func upstreamFaults(run *lib.Run, w *world, root *lib.RNG, direct, viaUp *child)
 			add(ucase{child: viaUp, route: "upstream-mitm", method: "HEAD", host: hm, class: "connect-rejected", exactRelay: code})
 		}
 	}
+	add(ucase{child: viaUp, route: "upstream-connect", method: "CONNECT", host: "bare503.test:443", class: "connect-rejected-bare-status", exactRelay: 503})
+	add(ucase{child: viaUp, route: "upstream-mitm", method: "GET", host: "bare503.mitm.test:443", class: "connect-rejected-bare-status", exactRelay: 503})
 	for _, h := range []string{"cutreject.mitm.test:443", "cutrejectrst.mitm.test:443"} {
 		for rep := 0; rep < 3; rep++ {
 			add(ucase{child: viaUp, route: "upstream-mitm", method: "GET", host: h, class: "connect-rejection-cut", exactRelay: 403, announced: 100})
